@@ -49,6 +49,15 @@ let rec is_subseq a b = match a, b with
   | _, [] -> false
   | x :: a', y :: b' -> if x = y then is_subseq a' b' else is_subseq a b'
 
+let spsc_spec aprogs capi =
+  let sconcat = String.concat "," in
+  (fun rets final ->
+          let (pushed, popped, _) = observe false aprogs rets in
+          if pushed <> popped @ final then
+            Some (Printf.sprintf "conservation violated: accepted pushes [%s] <> pops [%s] ++ content [%s]" (sconcat pushed) (sconcat popped) (sconcat final))
+          else if List.length final > capi then Some "content exceeds capacity"
+          else None)
+
 let oq_spec aprogs capi =
   let sconcat = String.concat "," in
   (fun rets final ->
@@ -64,6 +73,54 @@ let oq_spec aprogs capi =
           else if not (is_subseq final pushed) then Some "content order is not push order"
           else if List.length final > capi then Some (Printf.sprintf "content [%s] exceeds capacity %d at quiescence" (sconcat final) capi)
           else None)
+
+(* a release/acquire view model against the real queue run with injected stale values: thread 0 =
+   producer [acqp; pushes], thread 1 = consumer [acqc; pops]; the model's staleness oracle is chosen
+   from the value the implementation read (G1drv.observed_rd) *)
+let ra_sys nt c0 step_k race_used content spec =
+  let c = ref c0 in
+  let prelude = Array.make (max nt 2) true in
+  let first_acc es = let rec f = function EAcc (_, _, _, k, _, _, rd, _, ok) :: _ -> Some (k, rd, ok) | _ :: r -> f r | [] -> None in f es in
+  let step t =
+    if t < 2 && prelude.(t) then begin
+      prelude.(t) <- false;
+      Some [EAcc (n_of_int (if t = 0 then 1 else 3), n_of_int (if t = 0 then 3 else 4), N0, KCas, Acquire, Relaxed, n_of_int 1, N0, true); ERet (n_of_int 1)]
+    end else begin
+      let try_k k = step_k t !c k in
+      match try_k 0 with
+      | None -> None
+      | Some (c0', es0) ->
+        let stale_site = match first_acc es0 with Some (KLoad, _, _) -> true | Some (KCas, _, false) -> true | _ -> false in
+        let matches es = match first_acc es with Some (_, rd, _) -> u64_string_of_n rd = !observed_rd | None -> false in
+        let chosen =
+          if (not stale_site) || matches es0 then Some (c0', es0)
+          else begin
+            let found = ref None in
+            for k = 1 to 64 do
+              if !found = None then match try_k k with Some (ck, esk) when matches esk -> found := Some (ck, esk) | _ -> ()
+            done;
+            !found
+          end in
+        (match chosen with
+         | Some (c', es) ->
+           c := c';
+           if race_used (fst c') then raise (Failure "view model flags a racy access under the code's ordering table");
+           Some es
+         | None ->
+           (* no staleness choice of the model yields the observed value: below the model's lower
+              bound = an injection C11 does not permit (discard); anything else is a divergence *)
+           let lowest = match try_k 1000000 with Some (_, es) -> (match first_acc es with Some (_, rd, _) -> Some rd | None -> None) | None -> None in
+           let obs = n_of_u64_string !observed_rd in
+           (match lowest with
+            | Some lo when N.ltb obs lo -> raise (Discard "stale value below the model's bound")
+            | _ -> c := c0'; Some es0))
+    end in
+  { nthreads = nt; step;
+    finished = (fun t -> (not (t < 2 && prelude.(t))) && (match step_k t !c 0 with None -> true | Some _ -> false));
+    final_ok = (fun toks ->
+      let m = List.map u64_string_of_n (content (fst !c)) in
+      if m = toks then None else Some (Printf.sprintf "model content [%s] impl content [%s]" (String.concat "," m) (String.concat "," toks)));
+    spec }
 
 let mk_sys toks =
   match toks with
@@ -91,12 +148,7 @@ let mk_sys toks =
         final_ok = (fun toks ->
           let m = List.map u64_string_of_n (spsc_content (fst !c)) in
           if m = toks then None else Some (Printf.sprintf "model content [%s] impl content [%s]" (sconcat m) (sconcat toks)));
-        spec = (fun rets final ->
-          let (pushed, popped, _) = observe false aprogs rets in
-          if pushed <> popped @ final then
-            Some (Printf.sprintf "conservation violated: accepted pushes [%s] <> pops [%s] ++ content [%s]" (sconcat pushed) (sconcat popped) (sconcat final))
-          else if List.length final > capi then Some "content exceeds capacity"
-          else None) }
+        spec = spsc_spec aprogs capi }
     end else if kind = "oq" then begin
       let (((acqp, relp), acqc), relc), pop = oq_ops in
       let conv = function AcqP -> acqp | RelP -> relp | AcqC -> acqc | RelC -> relc | Pop -> pop | Push v -> oq_push (n_of_int v) in
@@ -108,54 +160,17 @@ let mk_sys toks =
           if m = toks then None else Some (Printf.sprintf "model content [%s] impl content [%s]" (sconcat m) (sconcat toks)));
         spec = oq_spec aprogs capi }
     end else if kind = "oqra" then begin
-      (* release/acquire view model of the overflowing queue against the real queue run with injected
-         stale values: thread 0 = producer [acqp; pushes], thread 1 = consumer [acqc; pops] *)
       let pushes = List.filter_map (function Push v -> Some (n_of_int v) | _ -> None) (if nt > 0 then aprogs.(0) else []) in
       let npops = List.length (List.filter (fun o -> o = Pop) (if nt > 1 then aprogs.(1) else [])) in
-      let c = ref (oqra_init (n_of_int capi) [] pushes (nat_of_int npops)) in
-      let prelude = Array.make (max nt 2) true in
-      let first_acc es = let rec f = function EAcc (_, _, _, k, _, _, rd, _, ok) :: _ -> Some (k, rd, ok) | _ :: r -> f r | [] -> None in f es in
-      let step t =
-        if t < 2 && prelude.(t) then begin
-          prelude.(t) <- false;
-          Some [EAcc (n_of_int (if t = 0 then 1 else 3), n_of_int (if t = 0 then 3 else 4), N0, KCas, Acquire, Relaxed, n_of_int 1, N0, true); ERet (n_of_int 1)]
-        end else begin
-          let (g, ls) = !c in
-          let try_k k = oqra_step1 oqra_ords_sync (nat_of_int t) (oqra_set_oracle g [n_of_int k], ls) in
-          match try_k 0 with
-          | None -> None
-          | Some (c0, es0) ->
-            let stale_site = match first_acc es0 with Some (KLoad, _, _) -> true | Some (KCas, _, false) -> true | _ -> false in
-            let matches es = match first_acc es with Some (_, rd, _) -> u64_string_of_n rd = !observed_rd | None -> false in
-            let chosen =
-              if (not stale_site) || matches es0 then Some (c0, es0)
-              else begin
-                let found = ref None in
-                for k = 1 to 64 do
-                  if !found = None then match try_k k with Some (ck, esk) when matches esk -> found := Some (ck, esk) | _ -> ()
-                done;
-                !found
-              end in
-            (match chosen with
-             | Some (c', es) ->
-               c := c';
-               if oqra_race_used (fst c') then raise (Failure "view model flags a racy used access under the code's ordering table");
-               Some es
-             | None ->
-               (* no staleness choice of the model yields the observed value: below the model's lower
-                  bound = an injection C11 does not permit (discard); anything else is a divergence *)
-               let lowest = match try_k 1000000 with Some (_, es) -> (match first_acc es with Some (_, rd, _) -> Some rd | None -> None) | None -> None in
-               let obs = n_of_u64_string !observed_rd in
-               (match lowest with
-                | Some lo when N.ltb obs lo -> raise (Discard "stale value below the model's bound")
-                | _ -> c := c0; Some es0))
-        end in
-      { nthreads = nt; step;
-        finished = (fun t -> (not (t < 2 && prelude.(t))) && (match oqra_step1 oqra_ords_sync (nat_of_int t) !c with None -> true | Some _ -> false));
-        final_ok = (fun toks ->
-          let m = List.map u64_string_of_n (oqra_content (fst !c)) in
-          if m = toks then None else Some (Printf.sprintf "model content [%s] impl content [%s]" (String.concat "," m) (String.concat "," toks)));
-        spec = oq_spec aprogs capi }
+      ra_sys nt (oqra_init (n_of_int capi) [] pushes (nat_of_int npops))
+        (fun t (g, ls) k -> oqra_step1 oqra_ords_sync (nat_of_int t) (oqra_set_oracle g [n_of_int k], ls))
+        (fun g -> oqra_race_used g) (fun g -> oqra_content g) (oq_spec aprogs capi)
+    end else if kind = "iqra" || kind = "sqra" then begin
+      let pushes = List.filter_map (function Push v -> Some (n_of_int v) | _ -> None) (if nt > 0 then aprogs.(0) else []) in
+      let npops = List.length (List.filter (fun o -> o = Pop) (if nt > 1 then aprogs.(1) else [])) in
+      ra_sys nt (ra_init (n_of_int capi) [] pushes (nat_of_int npops))
+        (fun t (g, ls) k -> ra_step1 ra_ords_code (nat_of_int t) (ra_set_oracle g [n_of_int k], ls))
+        (fun g -> ra_race g) (fun g -> ra_content g) (spsc_spec aprogs capi)
     end else failwith "unknown queue kind"
   | _ -> failwith "unknown case header"
 
